@@ -633,7 +633,98 @@ func Run(r *fw.Run) {
 	})
 	_, rd, _ := one(lg, 7, 2, []int64{0}, nil, nil, nil)
 	r.Sample(mkCase(7, 2, []int64{0}, []faultT{{2, "flip", 0}}, rd))
+	reuse(r, lg)
 	pathCases(r)
+}
+
+// reuse explores call histories on ONE TileHashReader value: a read under a fault, then honest reads of
+// every index, then the first read again without the fault. Whatever the first call did, the later ones
+// are served honestly and must return the true hashes (a reader must not keep anything it has not
+// authenticated), and nothing but true tiles may be passed on for saving at any point.
+func reuse(r *fw.Run, lg *tlogx.Log) {
+	sizes := []int{3, 5, 7, 8, 13, 16}
+	if r.Thorough() {
+		sizes = append(sizes, 21, 32, 33)
+	}
+	r.Bounds["reader_reuse_histories"] = fmt.Sprintf("N in %v, h in {1,2}: (faulted read of i; honest read of every j; honest read of i) for every i, fetch position and reduced-menu fault", sizes)
+	type job struct{ n, h int }
+	var jobs []job
+	for _, n := range sizes {
+		for _, h := range []int{1, 2} {
+			jobs = append(jobs, job{n, h})
+		}
+	}
+	fw.Parallel(len(jobs), func(ji int) {
+		n, h := jobs[ji].n, jobs[ji].h
+		l := fw.NewLocal()
+		defer r.Merge(l)
+		cache := map[tlog.Tile][]byte{}
+		count := int64(tlog.StoredHashCount(int64(n)))
+		tree := tlog.Tree{N: int64(n), Hash: lg.Root(n)}
+		read := func(hr tlog.HashReader, rd *reader, ix []int64, faults []faultT) (msg string, failed bool) {
+			rd.faults, rd.badSave = faults, ""
+			var hashes []tlog.Hash
+			var err error
+			func() {
+				defer func() {
+					if e := recover(); e != nil {
+						msg = fmt.Sprintf("panic: %v", e)
+					}
+				}()
+				hashes, err = hr.ReadHashes(ix)
+			}()
+			l.Execs++
+			l.Transitions++
+			if msg != "" {
+				return msg, true
+			}
+			if rd.badSave != "" {
+				return fmt.Sprintf("SaveTiles was handed tile %s whose bytes are not the true tile", rd.badSave), err != nil
+			}
+			if err != nil {
+				if len(faults) == 0 {
+					return fmt.Sprintf("a read of %v served honestly failed: %v", ix, err), true
+				}
+				return "", true
+			}
+			for k, x := range ix {
+				if hashes[k] != lg.Store[x] {
+					return fmt.Sprintf("read of index %d succeeded with a hash that is not the true stored hash", x), false
+				}
+			}
+			return "", false
+		}
+		for i := int64(0); i < count; i++ {
+			_, probe, _ := one(lg, n, h, []int64{i}, nil, nil, nil, cache)
+			for pos, t := range probe.fetched {
+				for _, mi := range menu(t, true) {
+					f := []faultT{{pos, mi.kind, mi.arg}}
+					rd := &reader{lg: lg, n: n, h: h, cache: cache}
+					hr := tlog.TileHashReader(tree, rd)
+					l.States++
+					hist := fmt.Sprintf("faulted read of %d", i)
+					msg, _ := read(hr, rd, []int64{i}, f)
+					for j := int64(0); msg == "" && j <= count; j++ {
+						x := j
+						if j == count {
+							x = i
+						}
+						hist = fmt.Sprintf("faulted read of %d, then honest read of %d", i, x)
+						msg, _ = read(hr, rd, []int64{x}, nil)
+					}
+					if msg != "" {
+						l.Outcomes["reuse:VIOLATION"]++
+						c := mkCase(n, h, []int64{i}, f, rd)
+						c.Kind = "reuse"
+						r.Violation(key("reuse", n, h, []int64{i}, f), "same TileHashReader, "+hist+": "+msg, c)
+					} else {
+						l.Outcomes["reuse:ok"]++
+						l.Nontrivial++
+					}
+				}
+			}
+		}
+	})
 }
 
 func Replay(r *fw.Run, raw json.RawMessage) {
@@ -648,6 +739,25 @@ func Replay(r *fw.Run, raw json.RawMessage) {
 		t, err := tlog.ParseTilePath(c.Path)
 		if err == nil && refPath(t) != c.Path {
 			r.Violation("parse", fmt.Sprintf("accepted %q as %+v", c.Path, t), c)
+		}
+	case "reuse":
+		lg, _ := tlogx.Build(tlogx.Pattern(0, max(c.N, 1)))
+		rd := &reader{lg: lg, n: c.N, h: c.H}
+		hr := tlog.TileHashReader(tlog.Tree{N: int64(c.N), Hash: lg.Root(c.N)}, rd)
+		rd.faults = c.Faults
+		hr.ReadHashes(c.Indexes)
+		if rd.badSave != "" {
+			r.Violation("reuse", "SaveTiles was handed a tile that is not the true tile: "+rd.badSave, c)
+			return
+		}
+		rd.faults = nil
+		count := tlog.StoredHashCount(int64(c.N))
+		for j := int64(0); j < count; j++ {
+			h, err := hr.ReadHashes([]int64{j})
+			if err != nil || len(h) != 1 || h[0] != lg.Store[j] || rd.badSave != "" {
+				r.Violation("reuse", fmt.Sprintf("same TileHashReader after a faulted read of %v: honest read of %d gives err=%v (or a false hash / a bad save)", c.Indexes, j, err), c)
+				return
+			}
 		}
 	default:
 		lg, _ := tlogx.Build(tlogx.Pattern(0, max(c.N, 1)))
